@@ -73,9 +73,11 @@ class SLoop(asyncio.SelectorEventLoop):
 
 
 def lifecycles():
+    # connect and handshake are separate events, so handshakes of two clients can overlap
     for end in ("close", "eof"):
-        yield ["open", "cmd", end]
-        yield ["open", end]
+        yield ["conn", "hs", "cmd", end]
+        yield ["conn", "hs", end]
+    yield ["conn", "close"]  # a client that leaves without ever sending its handshake
 
 
 def interleave(seqs):
@@ -139,7 +141,7 @@ def run_history(kind, hist, tmp, cmd="num-running"):
                 stopped = True
                 if srv.is_serving():
                     viol.append("is_serving() still true after the serving task was cancelled")
-            elif ev == "open":
+            elif ev == "conn":
                 if stopped:
                     try:
                         r, w = connect()
@@ -152,11 +154,22 @@ def run_history(kind, hist, tmp, cmd="num-running"):
                     r, w = connect()
                     conns[who] = (r, w)
                     open_clients.add(who)
-                    w.write(json.dumps({"terminal_width": 80}).encode() + b"\n")
                     loop.quiesce()
-                    if bytes(r._buffer) != str(pool).encode() + b"\n":
-                        viol.append(("handshake reply is not the pool's name", bytes(r._buffer)))
-                    r._buffer.clear()
+            elif conns.get(who) is None:
+                pass
+            elif ev == "hs":
+                r, w = conns[who]
+                w.write(json.dumps({"terminal_width": 80}).encode() + b"\n")
+                loop.quiesce()
+                got = bytes(r._buffer)
+                r._buffer.clear()
+                if got != str(pool).encode() + b"\n":
+                    if stopped and got == b"" and r.at_eof():
+                        open_clients.discard(who)  # conforming: connected before the stop, dropped after it
+                    else:
+                        viol.append(("handshake reply is not the pool's name", got, "stopped" if stopped else "serving"))
+                elif not stopped and r.at_eof():
+                    viol.append("server dropped a client right after its handshake while serving")
             elif conns.get(who) is None:
                 pass
             elif ev == "cmd":
@@ -424,7 +437,7 @@ def run(tier, seed):
         "states": len(states),
         "transitions": trans,
         "traces": n + ncli,
-        "samples": [{"transport": "unix", "history": [list(x) for x in list(histories(2, 1))[77]]}],
+        "samples": [{"transport": "unix", "history": [list(x) for x in list(histories(2, 1))[177]]}],
         "coverage": {"socket_histories": n, "cli_subprocess_histories": ncli, "clients": "0..2", "transports": ["tcp", "unix"]},
         "rule": "all interleavings of per-client lifecycles open->handshake->[command]->{close, half-close} for 0..2 raw stream clients "
                 "with the stop (cancellation of the serving task) at every position, on both transports, against the real server on a "
